@@ -86,7 +86,7 @@ def run(ctx):
     logging.getLogger("paramiko").addHandler(logging.NullHandler())
     logging.getLogger("paramiko").propagate = False
     threading.excepthook = lambda a: None  # prefetch threads die noisily when a hung case is torn down
-    n = ctx.pick(70, 900)
+    n = ctx.pick(70, 600)
     end = ctx.deadline(240, 1200)
     replayed = 0
     for idx in range(n):
@@ -177,8 +177,8 @@ def run(ctx):
     ctx.require("cases_with_status_reply_to_read", ctx.pick(40, 500))
     ctx.require("cases_cap_set", ctx.pick(120, 1500))
     ctx.require("answers_dispatched_before_registration", ctx.pick(150, 2000))
-    ctx.require("cases_bounded_pipe", ctx.pick(60, 1500))
+    ctx.require("cases_bounded_pipe", ctx.pick(60, 1000))
     ctx.require("cases_both_directions_blocked", ctx.pick(8, 200))
     ctx.require("cases_server_blocked_on_unread_answers", ctx.pick(25, 600))
-    ctx.require("cases_with_concurrent_readv", ctx.pick(6, 60))
+    ctx.require("cases_with_concurrent_readv", ctx.pick(6, 40))
     ctx.require("second_readv_issued_while_first_still_registering", ctx.pick(6, 60))
